@@ -343,6 +343,8 @@ class World:
             target += iter([val(v) for v in seq(o["vs"])])
         elif m == "setslice_all":
             target[:] = tuple(val(v) for v in seq(o["vs"]))
+        elif m == "item_set":
+            setattr(target[o["i"]], o["k"], val(o["v"]))
         elif m == "slice_from":
             src = getattr(owner, o["src"])
             target[:] = src if src is not None else []
